@@ -60,7 +60,8 @@ FunLmis(p) == SelectSeq(p.lmis, LAMBDA c : c = "F2")
 ClassRows == 2        \* abstract: the number of class rows is decided by the class (C04), not here
 \* rows of a partition of 2 blocks with 2 decomposed points (+ 1 per "block" edit): k * k orthogonality relations for k
 \* decomposed points (4, 9), plus the user's own constraint on the partition (declared with part = 1 only)
-PartRows(p, nb) == (IF p.part = 1 THEN 1 ELSE 0) + 4 + 5 * nb
+\* (with part = 1 the model also has a SECOND partition that decomposes one point: one more orthogonality relation)
+PartRows(p, nb) == (IF p.part = 1 THEN 2 ELSE 0) + 4 + 5 * nb
 SentList(p, edits, classLmis, partRows) ==
      Rep(Sc("metric"), p.metrics + edits.metric)
   \o <<Sc("pep")>>                                                   \* the initial condition
